@@ -1,5 +1,6 @@
 import GnoVerif.Proofs.C46WordsOK
 import GnoVerif.Proofs.C46Keys
+import GnoVerif.Proofs.C46Path
 /-!
 C46 — Key encryption, mnemonics and HD derivation are faithful.
 
@@ -154,27 +155,29 @@ example (salt : Bytes) (h : salt.length = 16) (o : Bool) :
 
 /-- `UnarmorDecryptPrivKey(EncryptArmorPrivKey(key, pass), pass) = key` for every passphrase
     (including the empty one = unencrypted armor), every salt, nonce and header order, every
-    cipher/KDF satisfying `Laws`, every non-empty key encoding the key decoder accepts -/
+    cipher/KDF satisfying `Laws`, every key encoding the key decoder accepts -/
 theorem encrypt_armor_roundtrip (C : Crypto) (L : C.Laws) (keyBytes pass salt nonce : Bytes) (saltFirst : Bool)
-    (hkey : C.keyFromBytes keyBytes = some keyBytes) (hne : keyBytes ≠ [])
+    (hkey : C.keyFromBytes keyBytes = some keyBytes)
     (hsalt : salt.length = 16) (hnonce : nonce.length = nonceLen) :
     ∃ text, encryptArmorPrivKey C keyBytes pass salt nonce saltFirst = .ok text ∧
       unarmorDecryptPrivKey C text pass = .ok keyBytes :=
-  roundtrip C L keyBytes pass salt nonce saltFirst hkey hne hsalt hnonce
+  roundtrip C L keyBytes pass salt nonce saltFirst hkey hsalt hnonce
 
 /-- the hypotheses of the round trip are jointly satisfiable -/
 example : ∃ C : Crypto, C.Laws ∧ C.keyFromBytes [1] = some [1] := ⟨toyCrypto, toyCrypto_laws, rfl⟩
 
-/-- quirk of xsalsa20symmetric: an EMPTY plaintext does not survive (`len(ciphertext) <= 40` is
-    "too short") — the reason `hne` is needed above; a private key's encoding is never empty -/
-theorem symmetric_empty_plaintext_rejected (C : Crypto) (L : C.Laws) (key nonce : Bytes)
+/-- xsalsa20symmetric: `DecryptSymmetric(EncryptSymmetric(m, k), k) = m` for EVERY plaintext,
+    the empty one included (the "too short" test is `<` since /repo 3171d20601; with the earlier
+    `<=` the 40-byte encryption of the empty plaintext was refused) -/
+theorem symmetric_roundtrip (C : Crypto) (L : C.Laws) (m key nonce : Bytes)
     (hk : key.length = secretLen) (hn : nonce.length = nonceLen) :
-    ∃ ct, encryptSymmetric C [] key nonce = .ok ct ∧ decryptSymmetric C ct key = .error .short := by
-  refine ⟨nonce ++ C.sealBox key nonce [], by simp [encryptSymmetric, hk], ?_⟩
-  unfold decryptSymmetric
-  have : (nonce ++ C.sealBox key nonce []).length ≤ boxOverhead + nonceLen := by
-    simp [L.seal_len, hn, Nat.add_comm]
-  simp only [hk, ne_eq, not_true_eq_false, if_false, this, if_true]
+    ∃ ct, encryptSymmetric C m key nonce = .ok ct ∧ decryptSymmetric C ct key = .ok m :=
+  ⟨nonce ++ C.sealBox key nonce m, by simp [encryptSymmetric, hk], decryptSymmetric_seal C L key nonce m hk hn⟩
+
+/-- anything shorter than nonce + tag is refused before the cipher is consulted -/
+theorem symmetric_short_rejected (C : Crypto) (ct key : Bytes) (hk : key.length = secretLen)
+    (h : ct.length < boxOverhead + nonceLen) : decryptSymmetric C ct key = .error .short := by
+  simp [decryptSymmetric, hk, h]
 
 /-- decryption looks at the passphrase only through bcrypt's 72-byte cyclic key stream -/
 theorem decrypt_depends_only_on_key_stream (C : Crypto) (text p q : Bytes)
@@ -191,19 +194,19 @@ theorem keyStream_only_first_72_bytes (p q : Bytes) (h : p.take 72 = q.take 72)
     cipher/KDF satisfying the round-trip laws, a key encrypted under "a"*72+"XXXX" is decrypted by
     "a"*72+"YYYYYYY".  (`keyStream_cyclic` is the second witness: "a" vs "a\x00a".) -/
 theorem wrong_passphrase_counterexample (C : Crypto) (L : C.Laws) (keyBytes : Bytes)
-    (hkey : C.keyFromBytes keyBytes = some keyBytes) (hne : keyBytes ≠ []) :
+    (hkey : C.keyFromBytes keyBytes = some keyBytes) :
     ¬ wrong_passphrase_statement C := by
   intro hst
   let salt : Bytes := List.replicate 16 0
   let nonce : Bytes := List.replicate 24 0
-  obtain ⟨text, henc, hdec⟩ := roundtrip C L keyBytes passX salt nonce false hkey hne rfl rfl
-  obtain ⟨e, he⟩ := hst keyBytes passX passY salt nonce false text hkey hne rfl rfl
+  obtain ⟨text, henc, hdec⟩ := roundtrip C L keyBytes passX salt nonce false hkey rfl rfl
+  obtain ⟨e, he⟩ := hst keyBytes passX passY salt nonce false text hkey rfl rfl
     (fun h => keyStream_trunc.2 h.symm) henc
   rw [← decrypt_congr C text passX passY keyStream_trunc.1 rfl, hdec] at he
   cases he
 
 example : ¬ wrong_passphrase_statement toyCrypto :=
-  wrong_passphrase_counterexample toyCrypto toyCrypto_laws [1] rfl (by simp)
+  wrong_passphrase_counterexample toyCrypto toyCrypto_laws [1] rfl
 
 /-- the second recorded witness: "a" and "a\x00a" have the same key stream -/
 theorem wrong_passphrase_counterexample_nul : keyStream [97] = keyStream [97, 0, 97] ∧ ([97] : Bytes) ≠ [97, 0, 97] :=
@@ -234,7 +237,7 @@ theorem wrong_passphrase_rejected_partial (C : Crypto) (L : C.Laws) (keyBytes pa
 /-- `henc`/`hok` are satisfiable (the toy instance: encrypt under "a", decrypt under "a") -/
 example : ∃ text, encryptArmorPrivKey toyCrypto [1] [97] (List.replicate 16 0) (List.replicate 24 0) false = .ok text ∧
     unarmorDecryptPrivKey toyCrypto text [97] = .ok [1] :=
-  encrypt_armor_roundtrip toyCrypto toyCrypto_laws [1] [97] _ _ false rfl (by simp) rfl rfl
+  encrypt_armor_roundtrip toyCrypto toyCrypto_laws [1] [97] _ _ false rfl rfl rfl
 
 /-- an unencrypted armor (empty passphrase) is refused under every non-empty passphrase -/
 theorem unencrypted_armor_refuses_passphrase (C : Crypto) (keyBytes pass' : Bytes) (hp : pass'.isEmpty = false) :
@@ -270,7 +273,26 @@ theorem tampered_armor_rejected_partial (C : Crypto) (salt nonce plain pass : By
 /-- `hopen1` is satisfiable together with a text that decrypts (the toy instance, encrypted armor) -/
 example : toyCrypto.openBox (toyCrypto.kdf [] []) [] (toyCrypto.sealBox (toyCrypto.kdf [] []) [] [1]) = some [1] := rfl
 
-/-! ## hd path syntax (observations pinned as examples; key derivation itself is not modelled) -/
+/-! ## hd path syntax (the key derivation itself — HMAC-SHA512, secp256k1 — is not modelled) -/
+
+/-- the path string the keybase builds (`BIP44Params.String()`) makes `DerivePrivateKeyForPath`
+    derive along purpose' / coinType' / account' / change / addressIndex — for all uint32 fields -/
+theorem bip44_path_indices (p : BIP44Params) (h1 : p.purpose < 2 ^ 32) (h2 : p.coinType < 2 ^ 32)
+    (h3 : p.account < 2 ^ 32) (h4 : p.addressIndex < 2 ^ 32) :
+    parsePath p.str = .ok [(p.purpose, true), (p.coinType, true), (p.account, true),
+      ((if p.change then 1 else 0), false), (p.addressIndex, false)] :=
+  parsePath_str p h1 h2 h3 h4
+
+/-- `NewParamsFromPath(params.String()) = params` for every BIP-44 parameter set (purpose 44) -/
+theorem bip44_string_roundtrip (p : BIP44Params) (hp : p.purpose = 44) (h2 : p.coinType < 2 ^ 32)
+    (h3 : p.account < 2 ^ 32) (h4 : p.addressIndex < 2 ^ 32) : newParamsFromPath p.str = .ok p :=
+  newParams_str p hp h2 h3 h4
+
+/-- the fundraiser parameters 44'/118'/0'/0/0 satisfy the hypotheses -/
+example : newParamsFromPath (BIP44Params.str ⟨44, 118, 0, false, 0⟩) = .ok ⟨44, 118, 0, false, 0⟩ :=
+  bip44_string_roundtrip _ rfl (by decide) (by decide) (by decide)
+
+/-! observations pinned as examples -/
 
 /-- an empty path component makes `DerivePrivateKeyForPath` panic (slice bounds out of range) -/
 example : parsePath [] = .error .panicEmpty := by rfl
